@@ -400,10 +400,12 @@ def _step(S, op, what):
         i, x = int(op["i"]) % 6, float(op["x"])
         v = a.v.copy()
         v[i] = x
+        # the same entry addressed NumPy-style from the end (t[-1] is the z rotation component)
+        ii = i - 6 if op.get("neg") else i
         if name == "set":
-            sut(a.t.set, i, x)
+            sut(a.t.set, ii, x)
         else:
-            sut(a.t.__setitem__, i, x)
+            sut(a.t.__setitem__, ii, x)
         return a, (vec, v, [pa])
     if name == "setslice":
         lo, hi = int(op["lo"]), int(op["hi"])
@@ -413,7 +415,8 @@ def _step(S, op, what):
         v = a.v.copy()
         v[lo:hi] = vals
         arg = [float(x) for x in vals] if op["form"] == "list" else _as_shape(vals, op["form"])
-        sut(a.t.__setitem__, slice(lo, hi), arg)
+        sl = slice(lo - 6, None if hi == 6 else hi - 6) if op.get("neg") else slice(lo, hi)
+        sut(a.t.__setitem__, sl, arg)
         return a, (vec, v, [pa])
     if name == "setQuat":
         q = _quat(np.array(op["w"], dtype=float), op["s"])
@@ -842,6 +845,7 @@ _SLICES = st.sampled_from([(0, 3), (3, 6), (0, 6), (2, 5), (1, 2), (4, 6), (0, 1
 _FORMS = st.sampled_from(["list", "flat"])
 _FORMS3 = st.sampled_from(["list", "flat", "col", "col"])
 _I6 = st.integers(0, 5)
+_NEG = st.sampled_from([False, False, False, True])      # index / slice bounds written as negative numbers
 _SETNAME = st.sampled_from(["set", "setitem"])
 
 
@@ -850,13 +854,13 @@ def _setslice(draw):
     lo, hi = draw(_SLICES)
     vals = [draw(_POSC if k < 3 else _ROTC) for k in range(lo, hi)]
     return {"op": "setslice", "a": draw(_IDX), "lo": lo, "hi": hi, "vals": vals,
-            "form": draw(_FORMS3 if hi - lo == 3 else _FORMS)}
+            "form": draw(_FORMS3 if hi - lo == 3 else _FORMS), "neg": draw(_NEG)}
 
 
 @st.composite
 def _setone(draw):
     i = draw(_I6)
-    return {"op": draw(_SETNAME), "a": draw(_IDX), "i": i, "x": draw(_POSC if i < 3 else _ROTC)}
+    return {"op": draw(_SETNAME), "a": draw(_IDX), "i": i, "x": draw(_POSC if i < 3 else _ROTC), "neg": draw(_NEG)}
 
 
 def _constructors():
